@@ -12,8 +12,7 @@ package prelude
 //@   strings concrete
 //@   ensures result == smt("Str", "(ite (str.suffixof $2 $1) (str.substr $1 0 (- (str.len $1) (str.len $2))) $1)", arg0, arg1)
 //@ func strings.Split
-//@   strings concrete
-//@   uses merkle
+//@   uses strings
 //@   allocates
 //@   modifies H.HA_Str
 //@   ensures fresh(result) && result.off == 0 && len(result) == split_count(arg0, arg1) && forall(i, 0, len(result), result[i] == split_at(arg0, arg1, i))
@@ -27,3 +26,27 @@ package prelude
 //@ func strings.HasSuffix
 //@   strings concrete
 //@   ensures result == smt("Bool", "(str.suffixof $2 $1)", arg0, arg1)
+//@ func strings.Join
+//@   effectfree
+//@ func strconv.ParseInt
+//@   uses strings
+//@   ensures (err == nil) == parse_int_ok(arg0)
+//@   ensures err == nil ==> result0 == parse_int(arg0)
+
+//@ func slices.Clone
+//@   trusted
+//@   allocates
+//@   modifies H.HA_Str
+//@   assumes slices.Clone is only used on []string in the verified code
+//@   ensures fresh(result) && result.off == 0 && len(result) == len(arg0) && forall(i, 0, len(arg0), result[i] == old(H.HA_Str)[arg0.arr][arg0.off + i])
+//@   ensures forall(l, "Int", l != result.arr ==> H.HA_Str[l] == old(H.HA_Str)[l])
+
+// slices.Sort on []string: sorts in place; the result is the ascending arrangement of the same elements
+//@ func slices.Sort
+//@   trusted
+//@   uses seq
+//@   modifies arr(arg0)
+//@   assumes slices.Sort is only used on []string in the verified code; str_lt is the byte-wise order of Go strings
+//@   ensures forall(x, "Str", smem(H.HA_Str, arg0, x) == smem(old(H.HA_Str), arg0, x))
+//@   ensures forall(i, 0, len(arg0), forall(j, 0, len(arg0), i < j ==> str_le(sget(H.HA_Str, arg0, i), sget(H.HA_Str, arg0, j))))
+//@   ensures snodup(old(H.HA_Str), arg0) ==> snodup(H.HA_Str, arg0)
